@@ -1,5 +1,5 @@
 (* Dispatch.v — one Gallina entry point for both evaluators: a protocol line in, a result line out. *)
-From MRS Require Import Model.Base Model.OpsAddress Model.OpsAmount Model.OpsBasic Model.OpsCodec Model.OpsCurve Model.OpsExtra Model.OpsHash.
+From MRS Require Import Model.Base Model.OpsAddress Model.OpsAmount Model.OpsBasic Model.OpsCodec Model.OpsCurve Model.OpsExtra Model.OpsHash Model.OpsRobust.
 From Coq Require Import String Ascii.
 Open Scope string_scope.
 
@@ -14,7 +14,8 @@ Definition all_ops : list (string -> list string -> option string) :=
     ops_codec;
     ops_curve;
     ops_extra;
-    ops_hash ].
+    ops_hash;
+    ops_robust ].
 
 Definition run_line (line : string) : string :=
   match words line with
